@@ -464,6 +464,7 @@ def batch_ctc_listing_family(lo, hi):
     names = ['F0', 'F1', 'F2']
     fam = [t for t in _c18.family_depth2_restricted(names) if isinstance(t, tuple)]
     fam += [('OR', ('OR', a, b), ('NOT', c)) for a in names for b in names for c in names] + [('OR', ('NOT', c), ('OR', a, b)) for a in names for b in names for c in names]
+    fam += _c18.family_both_sides(names + ['F3'])[::4]       # compound operands on both sides (every fourth tree; all of them in C18)
     res = {'instances': 0, 'nontrivial': 0, 'violations': [], 'native_runs': 0}
     for t in fam[lo:hi]:
         res['instances'] += 1
@@ -510,6 +511,20 @@ def replay_ctc_listing(trees):
             out.append('%s listing != filter by %s on %r' % (kind, pred, trees))
     if [id(c) for c in m.get_constraints()] != [id(c) for c in ctcs]:
         out.append('get_constraints() is not the constraint list')
+    # pseudo- / strict-complex listings against the reference definition (raw clause set of the CNF, where canonical)
+    from . import c18 as _c18x
+    try:
+        pse = [id(c) for c in m.get_pseudocomplex_constraints()]
+        stc = [id(c) for c in m.get_strictcomplex_constraints()]
+        for c, t in zip(ctcs, trees):
+            kind = _c18x.ref_complex_kind(t)
+            if kind is None or not c.is_complex_constraint():
+                continue
+            if (id(c) in pse, id(c) in stc) != (kind == 'pseudo', kind == 'strict'):
+                out.append('%r splits into %s: it belongs in the %s-complex listing only, but pseudo listing: %s, strict listing: %s'
+                           % (t, 'requires / excludes clauses only' if kind == 'pseudo' else 'clauses of which one is no requires / excludes', kind, id(c) in pse, id(c) in stc))
+    except Exception:
+        pass
     # what the requires / excludes listings must contain is a matter of meaning: the documented simple forms are listed,
     # and whatever is listed is equivalent to 'l implies r' / 'not both l and r' for two of its features (truth table)
     from . import c17 as _c17, c18 as _c18
@@ -632,7 +647,7 @@ def conditions(tier, seed):
 def batches(tier, seed):
     N = 4 if tier == 'quick' else 5
     return [('batch_e3', []), ('batch_ctc_listings', [seed, 150 if tier == 'quick' else 1500]),
-            ('batch_native_grid', [N]), ('batch_edit_queries', [N])] + [('batch_ctc_listing_family', [lo, lo + 1100]) for lo in range(0, 4400, 1100)]
+            ('batch_native_grid', [N]), ('batch_edit_queries', [N])] + [('batch_ctc_listing_family', [lo, lo + 1100]) for lo in range(0, 6600, 1100)]
 
 
 WITNESSES = {'relation-0-0-single-child': witness_rel00}
